@@ -27,6 +27,8 @@ def check(ctx):
     grad.wgdiv(ctx)
     grad.gradpath(ctx)
     grad.autograd(ctx)
+    grad.derivative_ops(ctx)
+    grad.inplace(ctx)
     ctx.floor("WGDIV", 3)
     ctx.floor("GRADPATH", 30)
     ctx.floor("AUTOGRAD", 10)
